@@ -614,6 +614,7 @@ type c06Req struct {
 	err     error
 	asked   []string
 	done    bool
+	history string
 }
 
 func (rq *c06Req) domain() phase0.Domain {
@@ -659,7 +660,15 @@ func c06Sig(b byte) phase0.BLSSignature {
 	return s
 }
 
-func c06Pick[T any](vals ...T) T { return vals[mc.Choose(len(vals))] }
+// c06Fixed makes c06Pick take the first value (used for the history request, whose content is irrelevant).
+var c06Fixed bool
+
+func c06Pick[T any](vals ...T) T {
+	if c06Fixed {
+		return vals[0]
+	}
+	return vals[mc.Choose(len(vals))]
+}
 
 // sourceEpoch picks a source epoch before the target epoch (clamped at genesis).
 func c06SourceEpoch(target phase0.Epoch) phase0.Epoch {
@@ -986,7 +995,20 @@ func c06Units(tier string) []hx.Unit {
 						standardsigner.WithDomainProvider(dp),
 					)
 					must(err)
+					// history: the same signer instance may already have signed this kind of duty on the other
+					// (or the same) side of the fork boundary; what it signs now must not depend on that
+					if ep.slotted {
+						if w := mc.Choose(3); w > 0 {
+							warm := &c06Req{ep: ep.name}
+							c06Fixed = true
+							ep.run(context.Background(), svc, []phase0.Slot{79, 80}[w-1], rq.accts, warm)
+							c06Fixed = false
+							rq.history = fmt.Sprintf(" (after a %s request at slot %d on the same signer)", ep.name, []phase0.Slot{79, 80}[w-1])
+							dp.asked = nil
+						}
+					}
 					ep.run(context.Background(), svc, slot, rq.accts, rq)
+					rq.desc += rq.history
 					rq.asked = dp.asked
 					rq.done = true
 				}
